@@ -12,7 +12,7 @@ The aliasing half of the statement has no counterpart over immutable values: it 
 
 Several per-point theorems are short because model and documented function nearly coincide (where, shift); the
 substance is in `grouped_nodes_are_per_group`, the history statements of the stateful nodes, the map theorems of
-default/delete and the flatten naming theorem. Not proved (kept as `…_stmt`): eval.
+default/delete, `eval_spec` and the flatten theorems.
 -/
 import Kap.Proofs.C10Main
 namespace Kap.Props.C10
@@ -204,16 +204,26 @@ theorem combine_greedy_misses_a_combination :
 
 /-! ### eval -/
 
-/-- The full statement for eval (NOT proved): whenever no result is shadowed, the threaded scope of `EvalNode.eval`
-computes the documented output. What is missing: the invariant relating the threaded scope to "fields/tags first, else the
-latest earlier result" across the expression loop. The statement is checked on every run on the implementation's output
-(clause `eval-spec`) and the model is tied to the code by correspondence. -/
-def eval_spec_stmt : Prop :=
-  ∀ (c : EvalCfg) (fields : Fields) (tags : Tags), evalShadowed c fields tags = false →
+/-- **eval computes its documented output** (results in order — a later expression sees fields and tags first, earlier
+results otherwise; listed string results become tags; fields by keep mode; any error drops the point) for every
+configuration the pipeline accepts (as many names as expressions, `.tags()` ⊆ `.as()`) and every point on which no result
+is shadowed (the recorded deviation below). `none` = the point is dropped; fields and tags are compared as maps. -/
+theorem eval_spec (c : EvalCfg) (fields : Fields) (tags : Tags)
+    (hlen : c.as.length = c.exprs.length) (htags : ∀ t ∈ c.tags, t ∈ c.as)
+    (hsh : evalShadowed c fields tags = false) :
     match evalFT c fields tags, specEvalFT c fields tags with
-    | some (f, t), some (f', t') => mapEqB f f' = true ∧ mapEqB t t' = true
     | none, none => True
-    | _, _ => False
+    | some (f, t), some (f', t') => mapEqB f f' = true ∧ mapEqB t t' = true
+    | _, _ => False :=
+  evalFT_spec c fields tags hlen htags hsh
+
+/-- non-vacuity: two expressions, the second uses the first result, one result becomes a tag, keep(list) -/
+example :
+    let c : EvalCfg := { exprs := [.bin .add (.ref "v") (.lit (.int 1)), .bin .mul (.ref "x") (.lit (.int 2)), .bin .add (.ref "h") (.lit (.str "!"))],
+                         as := ["x", "y", "t"], tags := ["t"], keep := true, keepList := ["y", "v"] }
+    c.as.length = c.exprs.length ∧ (∀ t ∈ c.tags, t ∈ c.as) ∧ evalShadowed c [("v", .int 1)] [("h", "a")] = false ∧
+      evalFT c [("v", .int 1)] [("h", "a")] = some ([("y", .int 4), ("v", .int 1)], [("h", "a"), ("t", "a!")]) := by
+  decide
 
 /-- Recorded finding `eval-result-shadowed`: eval(lambda: "v" + 1, lambda: "v" * 2).as('v','y').keep() on v=1 — the second
 expression re-binds "v" to the field, the emitted v is the original 1, the result 2 is lost
